@@ -591,6 +591,15 @@ def loop_header(node):
     return f"while {ast.unparse(node.test)}"
 
 
+def loaded_names(nodes):
+    names = set()
+    for n in nodes:
+        for x in ast.walk(n):
+            if isinstance(x, ast.Name) and isinstance(x.ctx, ast.Load):
+                names.add(x.id)
+    return names
+
+
 def assigned_names(nodes):
     names = set()
     for n in nodes:
@@ -788,7 +797,8 @@ class Ctx:
         return tuple(out)
 
     def ev_List(self, n):
-        return list(self.ev_Tuple(n))
+        r = self.ev_Tuple(n)
+        return list(r) if isinstance(r, (tuple, list)) else r  # a contract's own sequence value (hook __tuple__) is kept
 
     def ev_Dict(self, n):
         d = {}
@@ -1132,7 +1142,13 @@ class Ctx:
             raise
 
     def ev_ListComp(self, n):
-        return list(self.comprehension(n))
+        try:
+            return list(self.comprehension(n))
+        except Unsupported:
+            r = self.contract.call(self, "__genexp__", [n], {}, n)
+            if r is not NotImplemented:
+                return r
+            raise
 
     def ev_DictComp(self, n):
         # {k: v for target in <concrete iterable> [if ...]}: same restrictions as comprehension(); keys concrete
@@ -1179,6 +1195,9 @@ class Ctx:
         return out
 
     def iter_concrete(self, v, n):
+        if isinstance(v, tuple) and len(v) > 1 and isinstance(v[0], str) and v[0] == "range":
+            # the marker bi_range returns for a range with symbolic bounds: not a concrete iteration space
+            raise Unsupported(f"iteration over a symbolic range at line {getattr(n, 'lineno', '?')}")
         if isinstance(v, (tuple, list)):
             return list(v)
         if isinstance(v, dict):
@@ -1734,6 +1753,11 @@ class Ctx:
             return tuple(self.havoc_value(x, f"{nm}.{i}") for i, x in enumerate(v))
         if isinstance(v, Opaque):
             return self.Opaque(nm)
+        if isinstance(v, dict):
+            # in place: the object identity (shared with the caller) is kept, the contents are arbitrary
+            for k in list(v):
+                v[k] = self.havoc_value(v[k], f"{nm}[{k}]")
+            return v
         if v is None or isinstance(v, (str, Ref)):
             return v  # keeps its kind; contracts that change kinds in loops must say so
         raise Unsupported(f"cannot havoc {nm}={v!r}")
@@ -1818,6 +1842,8 @@ class Ctx:
             mk_item = None
             seq_mode = True
         mod = assigned_names(s.body) | assigned_names([s.target]) | set(spec.extra_modifies)
+        # dicts mentioned in the body may be mutated through calls: their contents are havoc'd (in place)
+        mod |= {nm for nm in loaded_names(s.body) if isinstance(self.env.get(nm), dict)}
         # ---- init
         self.env[f"_it{k}"] = 0
         if seq_mode:
@@ -1870,10 +1896,25 @@ class Ctx:
             raise Unsupported("while-else")
         k, spec = self.loop_spec(s)
         if spec is None:
-            raise ContractMismatch(f"{self.fname}: loop {k} ({loop_header(s)}) has no invariant in the contract")
+            # no invariant given: unroll while the test evaluates to a *concrete* python bool (structure-bounded
+            # contracts); a symbolic test without invariant stays a contract mismatch
+            for _ in range(257):
+                c = self.truth(self.ev(s.test))
+                if not isinstance(c, bool):
+                    raise ContractMismatch(f"{self.fname}: loop {k} ({loop_header(s)}) has no invariant in the contract")
+                if not c:
+                    return
+                try:
+                    self.block(s.body)
+                except _Continue:
+                    continue
+                except _Break:
+                    return
+            raise Unsupported(f"while loop at line {s.lineno}: more than 256 concrete iterations")
         if spec.header is not None and spec.header != loop_header(s):
             self.notes.append(f"loop {k} header differs from the contract's note: {loop_header(s)!r}")
         mod = assigned_names(s.body) | set(spec.extra_modifies)
+        mod |= {nm for nm in loaded_names(s.body) if isinstance(self.env.get(nm), dict)}
         self.check_inv(spec, k, "init", s.lineno)
         self.havoc(mod, spec.retype)
         if spec.havoc_heap:
@@ -2095,6 +2136,14 @@ def verify(contract, discharge_now=True):
     except (KeyError, AttributeError) as e:
         rep.status = "mismatch"
         rep.detail = f"contract refers to missing name {e}"
+    except z3.Z3Exception as e:
+        rep.status = "mismatch"
+        rep.detail = f"contract could not be evaluated on this code: z3: {e}"
+    except (TypeError, ValueError, IndexError) as e:
+        import traceback
+        rep.status = "mismatch"
+        rep.detail = f"contract could not be evaluated on this code: {type(e).__name__}: {e} :: " + \
+            traceback.format_exc()[-400:]
     if discharge_now and rep.status == "ok":
         for ob in rep.obligations:
             discharge(ob)
